@@ -15,7 +15,8 @@ RULE = ("for every modelled class with finite instances and random nestings: (1)
         "a for-loop must agree with the values next() yields from a twin instance; (3) copies: copy() at a random position, then "
         "interleave next() on the original and the copy in a random order: each must yield exactly what an undisturbed twin "
         "yields from that position. (a) oracles on the implementation alone, (b) real objects vs Lean model. non-trivial = the "
-        "pattern is finite and the position is > 0; distinct by (expression, scenario)")
+        "pattern is finite and the position is > 0; distinct by (expression, scenario)"
+        " Also (implementation-only oracles): helper agreement for inexact float progressions, copies that keep shared sub-patterns, helpers on sequences whose chords / nested lists / dict items hold finite patterns.")
 ASSUMPTIONS = ["copy independence is structural in a pure model (a copied value cannot alias): that clause is decided by the interleaving oracle on the real objects",
                "twins are separately constructed, identically seeded instances of the same expression"]
 
